@@ -33,6 +33,68 @@ let rec drop n l = if n <= 0 then l else (match l with [] -> [] | _ :: t -> drop
 let n_leb a b = Model.N.leb a b
 let n_sub a b = Model.N.sub a b
 
+(* node.go dimension: see harness/cmd/c07/node.go. The node adds nothing to the
+   rules: the expected verdicts and memberships are those of handle_ascii. *)
+let node_hosts = ["host1:9001"; "host2:9002"; "h3.example.com:63000"; "10.0.0.4:7"; "node-e:1"; "Zz:90"; "[::1]:26000"]
+let bytes_of_string (s : string) : n list =
+  List.init (String.length s) (fun i -> n_of_int (Char.code s.[i]))
+
+let run_node id ordered head body =
+  let k = ref 1 in
+  List.iter (fun f ->
+      if String.length f > 6 && String.sub f 0 6 = "peers=" then
+        k := int_of_string (String.sub f 6 (String.length f - 6))) (split_ws head);
+  if !k < 1 then k := 1;
+  if !k > List.length node_hosts then k := List.length node_hosts;
+  let m = ref empty_membership in
+  let applied = ref 0 in
+  let pending = ref None in
+  let self = n_of_int 1 in
+  (* returns true when the replica applied its own removal *)
+  let apply n c =
+    incr applied;
+    (match handle_ascii ordered !m c (n_of_int !applied) with
+     | Applied m' -> m := m'; Printf.printf "%s %d A %s\n" id n (show_membership !m)
+     | Rejected _ -> Printf.printf "%s %d R %s\n" id n (show_membership !m)
+     | Panicked t -> Printf.printf "%s %d P%s\n" id n (string_of_n t); raise Stop);
+    if rmem self !m.m_removed then begin Printf.printf "%s %d SELFREMOVED\n" id n; raise Stop end in
+  let mkcc ty rep addr ccid init =
+    { cc_ccid = n_of_string ccid; cc_type = z_of_string ty; cc_replica = n_of_string rep;
+      cc_addr = bytes_of_hex addr; cc_init = init } in
+  (try
+    List.iteri (fun i h ->
+      if i < !k then begin
+        incr applied;
+        let c = { cc_ccid = N0; cc_type = z_of_string "0"; cc_replica = n_of_int (i + 1);
+                  cc_addr = bytes_of_string h; cc_init = true } in
+        (match handle_ascii ordered !m c (n_of_int !applied) with Applied m' -> m := m' | _ -> ())
+      end) node_hosts;
+    Printf.printf "%s b B %s\n" id (show_membership !m);
+    let ops = Str.split (Str.regexp_string " ; ") body in
+    List.iteri (fun n op ->
+      match split_ws op with
+      | [] -> ()
+      | "badreq" :: _ -> ()
+      | ["req"; ty; rep; addr; ccid] ->
+        if !pending <> None then Printf.printf "%s %d REFUSED busy\n" id n
+        else apply n (mkcc ty rep addr ccid false)
+      | ["pend"; ty; rep; addr; ccid] ->
+        if !pending <> None then Printf.printf "%s %d REFUSED busy\n" id n
+        else begin pending := Some (mkcc ty rep addr ccid false); Printf.printf "%s %d PENDING\n" id n end
+      | ["commit"] ->
+        (match !pending with
+         | None -> Printf.printf "%s %d NOPENDING\n" id n
+         | Some c -> pending := None; apply n c)
+      | ["ent"; ty; rep; addr; ccid; init] -> apply n (mkcc ty rep addr ccid (init = "1"))
+      | ["restore"; skip; ccid; a; nv; w; r] ->
+        m := m_set { m_ccid = n_of_string ccid; m_addresses = parse_map a; m_removed = parse_set r;
+                     m_nonvotings = parse_map nv; m_witnesses = parse_map w };
+        applied := !applied + 1 + int_of_string skip;
+        Printf.printf "%s %d S %s\n" id n (show_membership !m);
+        if rmem self !m.m_removed then begin Printf.printf "%s %d SELFREMOVED\n" id n; raise Stop end
+      | _ -> Printf.printf "%s %d BADOP\n" id n) ops
+  with Stop -> ())
+
 let run_sm id ordered body =
   let a = ref { r_members = empty_membership; r_applied = N0; r_updates = N0 } in
   let log = ref [] in              (* reversed *)
@@ -102,6 +164,7 @@ let () =
         (try ignore (Str.search_forward (Str.regexp_string "ordered=1") head 0); true with Not_found -> false) in
       if body = "" then Printf.printf "%s 0 EMPTY\n" id
       else if String.length head >= 3 && String.sub head 0 3 = "sm " then run_sm id ordered body
+      else if String.length head >= 5 && String.sub head 0 5 = "node " then run_node id ordered head body
       else begin
         let m = ref empty_membership in
         let ops = Str.split (Str.regexp_string " ; ") body in
